@@ -355,14 +355,32 @@ func checkC23(p *Prog, r *Report) {
 				}
 				okCut = blockJustified(st.Block(), func(f Fact) bool {
 					bo, ok := f.V.(*ssa.BinOp)
-					if !ok || !f.Val {
+					if !ok {
 						return false
 					}
-					if bo.Op == token.LSS && tagsOf(bo.X, SliceOpts{})["query.node.depth"] && tagsOf(bo.Y, SliceOpts{})["query.revdeps.maxDepth"] {
+					// the comparison in positive form: `!(a >= b)` is `a < b`, `!(a != b)` is `a == b`, `b > a` is `a < b`
+					// (the guard may be written as `if limit != -1 && depth >= limit { continue }`)
+					op, x, y := bo.Op, bo.X, bo.Y
+					if !f.Val {
+						switch op {
+						case token.GEQ:
+							op = token.LSS
+						case token.LEQ:
+							op = token.GTR
+						case token.NEQ:
+							op = token.EQL
+						default:
+							return false
+						}
+					}
+					if op == token.GTR {
+						op, x, y = token.LSS, y, x
+					}
+					if op == token.LSS && tagsOf(x, SliceOpts{})["query.node.depth"] && tagsOf(y, SliceOpts{})["query.revdeps.maxDepth"] {
 						return true
 					}
-					if bo.Op == token.EQL && tagsOf(bo.X, SliceOpts{})["query.revdeps.maxDepth"] {
-						if v, ok := constInt(bo.Y); ok && v == -1 {
+					if op == token.EQL && tagsOf(x, SliceOpts{})["query.revdeps.maxDepth"] {
+						if v, ok := constInt(y); ok && v == -1 {
 							return true
 						}
 					}
